@@ -171,9 +171,16 @@ Definition events_out_of_reach (c : case) : bool := model_hazard c.
 Definition obs_forget_tx (o : obs) : obs :=
   mkObs (o_hash_eq o) (o_next_eq o) true (o_base_ok o) (o_with_ok o) (o_base o) (o_with o).
 
+(** gas is an oracle value per replica, but without a hazard the model says the requests change nothing:
+    a gas difference is then a disagreement *)
+Definition gas_unexplained (m : mode) (c : case) : bool :=
+  (match m with Isolated => true | Shared => negb (model_hazard c) end) &&
+  negb ((c_gas_base c =? c_gas_with c) && (c_gas2_base c =? c_gas2_with c)).
+
 (** [m]: the model the current tree is compared with (Sites.mode_of of the generated inventory) *)
 Definition mismatch_in (m : mode) (c : case) : bool :=
   let p := predict m c in
+  gas_unexplained m c ||
   match m with
   | Isolated => negb (obs_eqb p (c_obs c))
   | Shared =>
